@@ -72,6 +72,6 @@ Definition dec_gt (ns : nat) (bs : list N) : rres (list (option genotype)) :=
   | Some (code, len, r) =>
     if code =? 1 then
       if len =? 0 then ROk (repeat None ns)
-      else dec_gt_samples ns (Z.to_nat len) r
+      else dec_gt_samples ns (znat (S (length r)) len) r
     else RErr                                            (* TypeMismatch *)
   end.
